@@ -7,8 +7,9 @@
 (*            transports:[..], clients:[..]},                              *)
 (*      events: [ {ev:"select", present: {Carrier: {sync:[rpc..],          *)
 (*                 asyncio:[rpc..]}, Other: {sync:[..], asyncio:[..]}}}    *)
-(*              | {ev:"call", svc, m, kind, via, path, reqtype, resptype,  *)
-(*                 hkey, hval, verb, body, extra} .. ]} .. ]               *)
+(*              | {ev:"call", inst, server, svc, m, kind, via, path,       *)
+(*                 reqtype, resptype, hkey, hval, verb, body, extra} .. ]} *)
+(*     .. ]                                                                *)
 (* recorded from a library emitted by the real generator for that          *)
 (* configuration: `select` = the mixin method names found on the imported  *)
 (* client classes, `call` = what the loopback gRPC / HTTP server saw and    *)
@@ -40,11 +41,12 @@ TSelect == /\ IsEvent("select") /\ SelectMixins
            /\ \A sv \in Services :
                 /\ SetOf(Ev[l].present[sv].sync) = exposed'[sv]["sync"] \cup OwnOn(sv)
                 /\ ("asyncio" \in clients => SetOf(Ev[l].present[sv].asyncio) = exposed'[sv]["asyncio"] \cup OwnOn(sv))
-Logged == [svc |-> Ev[l].svc, m |-> Ev[l].m, kind |-> Ev[l].kind, via |-> Ev[l].via, path |-> Ev[l].path, reqtype |-> Ev[l].reqtype,
+Logged == [inst |-> Ev[l].inst, server |-> Ev[l].server, svc |-> Ev[l].svc, m |-> Ev[l].m, kind |-> Ev[l].kind, via |-> Ev[l].via, path |-> Ev[l].path, reqtype |-> Ev[l].reqtype,
            resptype |-> Ev[l].resptype, hkey |-> Ev[l].hkey, hval |-> Ev[l].hval, verb |-> Ev[l].verb,
            body |-> Ev[l].body, extra |-> Ev[l].extra]
 TCall == /\ IsEvent("call") /\ Ev[l].svc \in Svcs /\ Ev[l].m \in RPCs /\ Ev[l].kind \in Kinds
-         /\ (CallMixin(Ev[l].svc, Ev[l].m, Ev[l].kind) \/ CallOwn(Ev[l].svc, Ev[l].m, Ev[l].kind))
+         /\ Ev[l].inst \in {"A", "B"}
+         /\ (CallMixin(Ev[l].svc, Ev[l].m, Ev[l].kind, Ev[l].inst) \/ CallOwn(Ev[l].svc, Ev[l].m, Ev[l].kind, Ev[l].inst))
          /\ call' = Logged
 TNextTrace == /\ tid <= N /\ l = Len(Ev) + 1 /\ phase = "selected"
               /\ TLCSet(1, tid)
